@@ -321,7 +321,48 @@ def rule_split_mass_agreement(ctx, rule='R03.7'):
     ctx.covered(rule, 'coordinate systems whose kick compensates the central attraction of the Kepler step: same mass at both sites', n, floor=1, samples=samples)
 
 
+def rule_bracket_swap(ctx):
+    """R03.8: the bisection fallback of the Kepler solver brackets the root between two values that are averaged; for a
+    negative step the bracket is mirrored, so the code exchanges its ends. The exchange consists of copies only and is
+    evaluated on the order domain: afterwards the two ends must hold each other's former value (a swap without a
+    temporary leaves both ends equal: the bracket has zero width and the step lands at the wrong place)."""
+    from . import orders
+    tu = cfront.load_tu('integrator_whfast.c')
+    fn = tu.func(SOLVER)
+    ends = None
+    for e in walk(cfront.body(fn)):
+        if is_assign(e) and e['opcode'] == '=':
+            r0 = strip(e['inner'][1], casts=True)
+            if r0.get('kind') == 'BinaryOperator' and r0['opcode'] == '/':
+                num = strip(r0['inner'][0], casts=True)
+                if num.get('kind') == 'BinaryOperator' and num['opcode'] == '+' and all(strip(x, casts=True).get('kind') == 'DeclRefExpr' for x in num['inner']) and render(r0['inner'][1]) in ('2.', '2.0', '2'):
+                    ends = tuple(strip(x, casts=True)['referencedDecl']['name'] for x in num['inner'])
+    anchor(ends is not None, 'bisection midpoint X = (X_max + X_min)/2 in the Kepler solver')
+    n = 0
+    for ifs in walk(cfront.body(fn)):
+        if ifs.get('kind') != 'IfStmt' or len(ifs['inner']) != 2:
+            continue
+        written = {render(e['inner'][0]) for e in walk(ifs['inner'][1]) if is_assign(e)}
+        if not (written & set(ends)) or not written <= set(ends) | {d['name'] for d in walk(ifs['inner'][1]) if d.get('kind') == 'VarDecl'}:
+            continue
+        srcs = [render(e['inner'][1]) for e in walk(ifs['inner'][1]) if is_assign(e)]
+        if not all(s_ in ends or s_ in {d['name'] for d in walk(ifs['inner'][1]) if d.get('kind') == 'VarDecl'} for s_ in srcs):
+            continue
+        n += 1
+        env = {ends[0]: 1.0, ends[1]: 2.0}
+        try:
+            orders.run(ifs['inner'][1], env)
+        except orders.Unsupported as ex:
+            raise AnalysisError('R03.8: the bracket exchange at src/integrator_whfast.c:%s is no longer made of copies (%s)' % (line_of(ifs), ex))
+        if (env[ends[0]], env[ends[1]]) != (2.0, 1.0):
+            ctx.report('R03.8', 'bisection:swap', 'src/integrator_whfast.c:%s %s' % (line_of(ifs), SOLVER),
+                       'under %s the bracket ends (%s, %s) = (1, 2) become (%g, %g) instead of being exchanged: the bracket collapses and the bisection returns its end point'
+                       % (render(ifs['inner'][0]), ends[0], ends[1], env[ends[0]], env[ends[1]]))
+    ctx.covered('R03.8', 'bracket exchanges of the bisection fallback (negative step) evaluated on the order domain', n, floor=1)
+
+
 def run(ctx):
+    rule_bracket_swap(ctx)
     rule_split_mass_agreement(ctx)
     rule_bisection_nan(ctx)
     tables.rule_tables(ctx, 'R03.1')
